@@ -301,3 +301,17 @@ Definition load_page_plain (chk : bool) (chunk_len off : N) (usz csz : Z) : page
   else mk_paged (TOk (off + cs)) u.
 
 Definition is_i32 (z : Z) : Prop := (- 2 ^ 31 <= z < 2 ^ 31)%Z.
+
+(* ------------------------------------------------------------------ fetching a column chunk (reader.rs fetch loop) *)
+(* NeedsFetch: (start, len) = col.byte_range()   (u64 from the footer)
+     [chk: start.checked_add(len) is None or > file size -> Err]                    <- repair f3bd995b4
+     prepare_for_chunk(len): chunk.resize_uninit(len)                               <- allocation of len bytes
+   Fetching: poll_read into buf[amount_written..] until amount_written == len;
+     a read at end of file returns Ok(0): [chk: Err] else the loop spins forever    <- TFuel = the hang
+   A seek beyond the end of the file succeeds (std::fs), so only the reads see the end. *)
+Definition fetch_chunk (chk : bool) (file_size start len : N) : paged :=
+  if chk && ((2 ^ 64 <=? start + len) || (file_size <? start + len)) then mk_paged TErr 0 else
+  if 2 ^ 63 <=? len then mk_paged TErr 0                         (* "failed to create memory layout" *)
+  else if file_size <? start + len then
+    (if len =? 0 then mk_paged (TOk 0) 0 else mk_paged (if chk then TErr else TFuel) len)
+  else mk_paged (TOk len) len.
